@@ -344,11 +344,51 @@ EXTRA6 = {
 }
 
 
+EXTRA7 = {
+    'C01': ' Round 11: read-only excludes answer mode for every option order (C01.R21); comparisons in the domain of the operand type '
+           '(C01.R22); via the call graph, answer key fields (C01.H26).',
+    'C02': ' Round 11: time options evaluated to milliseconds (C02.R20); comparisons in the domain of the operand type (C02.R21).',
+    'C03': ' Round 11: start-up AUTO-SYN interval staggered per master, evaluated (C03.R22); comparisons in the operand domain '
+           '(C03.R21); via the call graph, answer key fields (C03.H26).',
+    'C04': ' Round 11: a request keeps no reference to a local of its creator (C04.R13); a parameter used as loop counter is not read '
+           'behind the loop (C04.R14); via the call graph, refused requests are freed (C04.H27).',
+    'C05': ' Round 11: accessors return the full member width (C05.R15); bytes scaled in a domain that holds the result (C05.R16); '
+           'DTM range (C05.R17).',
+    'C06': ' Round 11: calcPrecision evaluated (C06.R15); float to integer conversions bounded (C06.R16); DTM decode range equals '
+           'encode range (C06.R17).',
+    'C08': ' Round 11: chain prefix only shrinks (C08.R7); 64 bit results and masks (C08.R11/R12).',
+    'C09': ' Round 11: a chain part length comes from its own :len (C09.R18).',
+    'C10': ' Round 11: cache key carries the values the type object is built with (C10.R12).',
+    'C11': ' Round 11: a CRC table filled by code is evaluated (C11.R1); comparisons in the operand domain (C11.R8).',
+    'C12': ' Round 11: key parts neither narrowed nor changed before construction (C12.R2).',
+    'C13': ' Round 11: 64 bit keys not narrowed (C13.R15); every constructed message is handed the condition (C13.R16).',
+    'C14': ' Round 11: comparisons in the operand domain (C14.R17), 64 bit clock results (C14.R18), POSIX results stay signed (C14.R19).',
+    'C15': ' Round 11: comparisons in the operand domain (C15.R14), 64 bit keys and masks (C15.R15/R16).',
+    'C16': ' Round 11: the level default falls back to the defaults row (C16.R13).',
+    'C17': ' Round 11: m_pollOrder and g_lastPollOrder share one type (C17.R9).',
+    'C18': ' Round 11: comparisons in the operand domain incl. bool against character (C18.R18); ensureDefault never appends a variable '
+           'behind a variable (C18.R19).',
+    'C19': ' Round 11: value list keys are streamed unsigned (C19.R13).',
+    'C20': ' Round 11: repository-wide type rules (C20.R23, R26, R27, R28), request lifetime (C20.R24), parameter as loop counter '
+           '(C20.R25), only close() releases the descriptor (C20.R19).',
+}
+
+
+EXTRA8 = {
+    'C10': ' Round 12: hasFullByteOffset evaluated inside the bookkeeping protocol for all pairs of sub-byte fields (C10.R13).',
+    'C13': ' Round 12: the operator of an on-the-fly condition reaches the value parser (C13.R17).',
+    'C15': ' Round 12: the ID length is part of the answer key (C15.R17).',
+    'C16': ' Round 12: nothing that is case-folded reaches a place where a level is kept or asked for (C16.R14).',
+    'C18': ' Round 12: a quoted argument ends only at the stored opening character (C18.R20).',
+    'C20': ' Round 12: via the call graph, the emptiness test in front of the last character of a multi-line field (C20.H11).',
+}
+
+
 def main():
     checks = []
     for pid in sorted(CHECKS):
         c = dict(CHECKS[pid])
-        c['text'] = c['text'] + EXTRA.get(pid, '') + EXTRA2.get(pid, '') + EXTRA3.get(pid, '') + EXTRA4.get(pid, '') + EXTRA5.get(pid, '') + EXTRA6.get(pid, '')
+        c['text'] = c['text'] + EXTRA.get(pid, '') + EXTRA2.get(pid, '') + EXTRA3.get(pid, '') + EXTRA4.get(pid, '') + EXTRA5.get(pid, '') + EXTRA6.get(pid, '') + EXTRA7.get(pid, '') + EXTRA8.get(pid, '')
         if pid in ('C01', 'C02', 'C03', 'C05', 'C06', 'C07', 'C08', 'C09', 'C10', 'C11', 'C13', 'C14', 'C15', 'C19', 'C20'):
             c['technique'] += '; finite evaluation of inline accessors / conditions from the typed AST on enumerated model states'
         checks.append({
